@@ -3,6 +3,7 @@ package node
 import (
 	"fmt"
 	"io"
+	"net"
 	"sync/atomic"
 	"testing"
 	"time"
@@ -20,7 +21,7 @@ import (
 // outgoing version, outgoing key or dialect are.
 func TestC06NodeIncoming(t *testing.T) {
 	rec := evid.New(t, "C06", "node level, incoming side: nodes with an incoming key and every combination of outgoing version {1,2}, outgoing key {none, same, other} and dialect {none, ardupilotmega} receive generated sequences of v1 frames, unsigned v2 frames, frames signed under another key, frames with a damaged signature and validly signed frames: only the validly signed ones may surface as frame events, all others as parse errors; non-trivial = sequence with at least one rejected and one valid frame; distinct by hash of the sequence and configuration")
-	rec.Require("out-v1", "out-v2", "no-dialect", "v1-frame", "unsigned", "other-key", "valid", "endpoint-serial", "endpoint-tcp-server", "endpoint-udp-server")
+	rec.Require("out-v1", "out-v2", "no-dialect", "v1-frame", "unsigned", "other-key", "valid", "endpoint-serial", "endpoint-tcp-server", "endpoint-udp-server", "endpoint-udp-broadcast", "endpoint-tcp-client")
 	evid.Check(t, rec, evid.N(150, 600), func(t *rapid.T) {
 		drawNodeInit(t)
 		key := [32]byte{}
@@ -33,11 +34,12 @@ func TestC06NodeIncoming(t *testing.T) {
 		kinds := rapid.SliceOfN(rapid.SampledFrom([]string{"valid", "valid", "v1-frame", "unsigned", "other-key", "badsig"}), 1, 12).Draw(t, "frames")
 		desc := fmt.Sprintf("outV2=%v outKey=%s dialect=%v frames=%v", outV2, outKey, withDialect, kinds)
 		// the key is the node's: it guards every kind of endpoint alike
-		epKind := rapid.SampledFrom([]string{"custom", "custom", "serial", "tcp-server", "udp-server"}).Draw(t, "endpoint")
+		epKind := rapid.SampledFrom([]string{"custom", "custom", "serial", "tcp-server", "udp-server", "udp-broadcast", "tcp-client"}).Draw(t, "endpoint")
 		desc += " endpoint=" + epKind
 		p := sim.NewPipe()
 		var ep gomavlib.EndpointConf = gomavlib.EndpointCustom{ReadWriteCloser: p}
 		port := 0
+		var ln net.Listener
 		switch epKind {
 		case "serial":
 			dev := fmt.Sprintf("/dev/ttyC06_%d", atomic.AddInt64(&serialCounter, 1))
@@ -50,6 +52,17 @@ func TestC06NodeIncoming(t *testing.T) {
 		case "udp-server":
 			port = sim.FreePort()
 			ep = gomavlib.EndpointUDPServer{Address: sim.Addr(port)}
+		case "udp-broadcast":
+			port = sim.FreePort()
+			ep = gomavlib.EndpointUDPBroadcast{BroadcastAddress: fmt.Sprintf("127.255.255.255:%d", sim.FreePort()), LocalAddress: sim.Addr(port)}
+		case "tcp-client":
+			port = sim.FreePort()
+			var lerr error
+			if ln, lerr = net.Listen("tcp4", sim.Addr(port)); lerr != nil {
+				t.Skip("port taken")
+			}
+			defer ln.Close()
+			ep = gomavlib.EndpointTCPClient{Address: sim.Addr(port)}
 		}
 		n := &gomavlib.Node{Endpoints: []gomavlib.EndpointConf{ep}, OutVersion: gomavlib.V1,
 			OutSystemID: 5, HeartbeatDisable: true, InKey: keyOf(&key)}
@@ -70,9 +83,18 @@ func TestC06NodeIncoming(t *testing.T) {
 		}
 		r := sim.StartRecorder(n, sim.Pacing{Kind: "fast"}, nil)
 		var peer *sim.Peer
-		if port != 0 {
+		if ln != nil {
+			ln.(*net.TCPListener).SetDeadline(time.Now().Add(bound)) //nolint:errcheck
+			c, aerr := ln.Accept()
+			if aerr != nil {
+				closeNode(n, bound) //nolint:errcheck
+				t.Fatalf("%s: the client endpoint did not connect within %v: %v", desc, bound, aerr)
+			}
+			peer = sim.WrapConn(c)
+			defer peer.Close()
+		} else if port != 0 {
 			var derr error
-			if peer, derr = sim.Dial(map[string]string{"tcp-server": "tcp4", "udp-server": "udp4"}[epKind], sim.Addr(port)); derr != nil {
+			if peer, derr = sim.Dial(map[string]string{"tcp-server": "tcp4", "udp-server": "udp4", "udp-broadcast": "udp4"}[epKind], sim.Addr(port)); derr != nil {
 				t.Fatalf("BROKEN: dial: %v", derr)
 			}
 			defer peer.Close()
